@@ -13,7 +13,7 @@ ENGINES = [
                        'fairness for liveness); bound to the unmodified Filter/MQ/ZMQSender/ZMQReceiver classes running on an '
                        'in-memory deterministic zmq stand-in with virtual time: spec->code replay with state projection '
                        'comparison, mutation-directed schedules, fault enumeration, observers on real executions'},
-    {'name': 'tlc+replay', 'path': '/verif/vlib', 'serves_properties': ['C10', 'C13', 'C14'],
+    {'name': 'tlc+replay', 'path': '/verif/vlib', 'serves_properties': ['C08', 'C10', 'C13', 'C14', 'C18'],
      'kind_free_text': 'TLA+ state-machine specification checked exhaustively by TLC within bounds; TLC-generated '
                        'behaviours (transition cover, -simulate) replayed step by step into the real class with the '
                        'abstract state compared after each step; property monitors on the real objects'},
@@ -26,6 +26,29 @@ NOTES = ('All checks: ./check <id> --tier quick|thorough; VERIF_SEED, VERIF_TIER
          'Specifications under /verif/spec, known findings in /verif/known_findings.json, design in DESIGN.md.')
 NOT_YET = {}
 CHECKS = {
+    'C08': dict(
+        engine='tlc+replay', technique='TLA+ lifecycle / exit-propagation specs (Lifecycle.tla, ExitProp.tla) checked exhaustively by TLC; every model behaviour replayed on real Filter.run on the simulated network; property formulas on observations',
+        design_ref='DESIGN.md 2.2, 3.1, 5/C08',
+        text='TLC proves the single-filter lifecycle invariants on every behaviour of Lifecycle.tla (fault ok/raise/exit() at constructor, '
+             'init before/during/after MQ creation, setup, k-th recv/process/send, shutdown, fini; stop event, exit message of either kind '
+             'from either side, exit_after; 16 policy pairs x 4 exit_after forms) and who-terminates = fixpoint of propagate/obey on '
+             'ExitProp.tla (chain/tee/rejoin x exiting filter x kind x 16^3 policies x all delivery orders), with a counterexample for each '
+             'of 14 named deviations. All behaviours of the model, all 288 policy-pair cases under several schedules, sampled per-filter '
+             'policy assignments and timed exit_after runs are executed on real Filter.run on the simulated network; the formulas are '
+             'evaluated on call log, return/raise, open sockets, stop_evt, wire messages, neighbours\' terminal states and virtual time.',
+        note='one filter under test with two helper neighbours / three filters; simulated ZeroMQ, virtual time, cooperative scheduling; '
+             'Filter.Runner, loop_exc=False and unconnected links are out; non-pair (per-filter mixed) policies are explored and reported '
+             'as a finding, not a verdict; one open known finding (MQ constructor failing half way leaks sockets)'),
+    'C18': dict(
+        engine='tlc+replay', technique='TLA+ spec of the lineage emitter and heartbeat thread (Lineage.tla) checked by TLC; every behaviour (lifecycle path x heartbeat interleaving) replayed on real Filter.run + OpenFilterLineage with a cooperative heartbeat thread',
+        design_ref='DESIGN.md 2.2, 3.1, 5/C18',
+        text='TLC proves C18_Wellformed (START RUNNING* one terminal event; kind by ending; terminal out before run() returns) on every '
+             'lifecycle behaviour x heartbeat interleaving and exhibits the four deviations the code had; every behaviour of the model is '
+             'replayed step by step on real Filter.run + OpenFilterLineage with a capturing client and a cooperative heartbeat thread (every '
+             'emitter call, stop-event set() and Thread.start is a yield point), plus free-running runs at 0.3-3.2 heartbeat intervals and '
+             'random interleavings; the event sequence and run ids are judged by the property formula.',
+        note='one emitter per run; for the stop-event and obeyed-error endings either terminal kind is accepted; a constructor failure yields '
+             'an empty history; emissions are atomic'),
     'C04': dict(
         engine='tlc+simzmq', technique='TLA+ protocol spec (OFP.tla) model-checked by TLC; TLC counterexamples of design mutations and -simulate behaviours replayed into the real Filter/MQ/ZMQ classes on a simulated network with state comparison; property observers on real executions',
         design_ref='DESIGN.md 2.1, 3, 4, 5/C04',
